@@ -108,6 +108,44 @@ static std::pair<std::string, std::string> cmp_ast(const Body &b, const Obs &o) 
     return {"", ""};
 }
 
+// (C) format-anomaly indicators of a WELL-FORMED body, from their documentation in htp_multipart.h: an indicator whose documented
+// construct does not occur in the generated body must not be raised, and the last boundary must have been seen. Only the
+// conservative direction is asserted for most of them (absent when the construct is absent).
+static const char *mflag_name(uint64_t f) {
+    switch (f) { case HTP_MULTIPART_LF_LINE: return "LF_LINE"; case HTP_MULTIPART_CRLF_LINE: return "CRLF_LINE"; case HTP_MULTIPART_BBOUNDARY_LWS_AFTER: return "BBOUNDARY_LWS_AFTER"; case HTP_MULTIPART_BBOUNDARY_NLWS_AFTER: return "BBOUNDARY_NLWS_AFTER";
+        case HTP_MULTIPART_HAS_PREAMBLE: return "HAS_PREAMBLE"; case HTP_MULTIPART_HAS_EPILOGUE: return "HAS_EPILOGUE"; case HTP_MULTIPART_SEEN_LAST_BOUNDARY: return "SEEN_LAST_BOUNDARY"; case HTP_MULTIPART_PART_AFTER_LAST_BOUNDARY: return "PART_AFTER_LAST_BOUNDARY";
+        case HTP_MULTIPART_INCOMPLETE: return "INCOMPLETE"; case HTP_MULTIPART_HBOUNDARY_INVALID: return "HBOUNDARY_INVALID"; case HTP_MULTIPART_HBOUNDARY_UNUSUAL: return "HBOUNDARY_UNUSUAL"; case HTP_MULTIPART_HBOUNDARY_QUOTED: return "HBOUNDARY_QUOTED";
+        case HTP_MULTIPART_PART_HEADER_FOLDING: return "PART_HEADER_FOLDING"; case HTP_MULTIPART_PART_UNKNOWN: return "PART_UNKNOWN"; case HTP_MULTIPART_PART_HEADER_REPEATED: return "PART_HEADER_REPEATED"; case HTP_MULTIPART_PART_HEADER_UNKNOWN: return "PART_HEADER_UNKNOWN";
+        case HTP_MULTIPART_PART_HEADER_INVALID: return "PART_HEADER_INVALID"; case HTP_MULTIPART_CD_TYPE_INVALID: return "CD_TYPE_INVALID"; case HTP_MULTIPART_CD_PARAM_REPEATED: return "CD_PARAM_REPEATED"; case HTP_MULTIPART_CD_PARAM_UNKNOWN: return "CD_PARAM_UNKNOWN";
+        case HTP_MULTIPART_CD_SYNTAX_INVALID: return "CD_SYNTAX_INVALID"; case HTP_MULTIPART_PART_INCOMPLETE: return "PART_INCOMPLETE"; case HTP_MULTIPART_NUL_BYTE: return "NUL_BYTE"; default: return "?"; }
+}
+static bool plain_boundary(const std::string &b) { if (b.empty() || b.size() > 70) return false; for (unsigned char c : b) if (!isalnum(c) && c != '-') return false; return true; }
+static std::pair<std::string, std::string> check_indicators(const Body &b, uint64_t flags, bool e2e) {
+    // the lines of a preamble or an epilogue are free text that the parser may read as (bad) part headers: the part-level
+    // indicators are asserted only for bodies that have neither. A parameter behind the boundary parameter (ctvar 2) and a
+    // media type not spelled in lower case (ctvar 4) are flagged HBOUNDARY_INVALID on purpose ("stricter than the RFC").
+    bool plainbody = b.preamble.empty() && b.epilogue.empty();
+    uint64_t absent = HTP_MULTIPART_INCOMPLETE | HTP_MULTIPART_PART_AFTER_LAST_BOUNDARY | HTP_MULTIPART_CD_TYPE_INVALID | HTP_MULTIPART_CD_PARAM_REPEATED | HTP_MULTIPART_CD_PARAM_UNKNOWN | HTP_MULTIPART_BBOUNDARY_NLWS_AFTER |
+                      HTP_MULTIPART_CD_SYNTAX_INVALID | HTP_MULTIPART_PART_INCOMPLETE;
+    uint64_t present = HTP_MULTIPART_SEEN_LAST_BOUNDARY;
+    bool unk = false, fold = false; for (auto &p : b.parts) { if (p.var & 12) unk = true; if (p.fold) fold = true; }
+    if (plainbody) { absent |= HTP_MULTIPART_PART_HEADER_REPEATED | HTP_MULTIPART_PART_HEADER_INVALID | HTP_MULTIPART_PART_UNKNOWN | HTP_MULTIPART_NUL_BYTE;
+        if (!unk) absent |= HTP_MULTIPART_PART_HEADER_UNKNOWN; if (!fold) absent |= HTP_MULTIPART_PART_HEADER_FOLDING; }
+    if (unk) present |= HTP_MULTIPART_PART_HEADER_UNKNOWN;
+    if (fold) present |= HTP_MULTIPART_PART_HEADER_FOLDING;
+    if (b.preamble.empty()) absent |= HTP_MULTIPART_HAS_PREAMBLE;
+    if (b.epilogue.empty()) absent |= HTP_MULTIPART_HAS_EPILOGUE;
+    if (b.lws == 0) absent |= HTP_MULTIPART_BBOUNDARY_LWS_AFTER;
+    if (e2e) { bool quoted = b.boundary.find_first_of(",;=?/:()' ") != std::string::npos; if (!quoted) absent |= HTP_MULTIPART_HBOUNDARY_QUOTED;
+        if (plain_boundary(b.boundary) && (b.ctvar == 0 || b.ctvar == 3)) absent |= HTP_MULTIPART_HBOUNDARY_INVALID | HTP_MULTIPART_HBOUNDARY_UNUSUAL; }
+    static const char *diag = getenv("C14_FLAG_DIAG");
+    for (uint64_t f = 1; f <= HTP_MULTIPART_NUL_BYTE; f <<= 1) {
+        if ((flags & f) && (absent & f)) { if (diag) { g_stats.cls(std::string("diag_raised_") + mflag_name(f) + (b.preamble.empty() && b.epilogue.empty() ? "_noprepi" : "_prepi") + (e2e ? "_e2e" : "")); continue; } return {std::string("indicator_raised_without_construct:") + mflag_name(f), std::string(mflag_name(f)) + " is raised (flags=" + std::to_string(flags) + ") although the well-formed body does not contain the construct it documents"}; }
+        if (!(flags & f) && (present & f)) { if (diag) { g_stats.cls(std::string("diag_missing_") + mflag_name(f)); continue; } return {std::string("indicator_not_raised:") + mflag_name(f), std::string(mflag_name(f)) + " is not raised (flags=" + std::to_string(flags) + ") although the body contains the construct it documents"}; }
+    }
+    return {"", ""};
+}
+
 static std::string body_text(const Body &b, const std::vector<size_t> &cuts, const char *mode) {
     auto H = [](const std::string &s) { return s.empty() ? std::string("-") : vc::hex(s); };
     std::string s = std::string("mpart ") + mode + "\nboundary " + H(b.boundary) + "\nlf " + std::to_string(b.lf) + "\nlws " + std::to_string(b.lws) + " " + std::to_string(b.ctvar) + "\npreamble " + H(b.preamble) + "\nepilogue " + H(b.epilogue) + "\n";
@@ -123,6 +161,7 @@ static std::pair<std::string, std::string> check_direct(const Body &b, const std
     Obs o = run_direct(b.boundary, vdrv::cut_at(wire, cuts));
     auto r = cmp_ast(b, o);
     if (!r.first.empty()) return {r.first + (cuts.empty() ? "" : ":chunked"), r.second};
+    if (cuts.empty()) { auto ri = check_indicators(b, o.flags, false); if (!ri.first.empty()) return ri; }
     if (ref && !(o == *ref)) return {"chunking_changes_result", "single call: " + show(*ref) + "\nthis chunking: " + show(o)};
     return {"", ""};
 }
@@ -224,6 +263,7 @@ static std::pair<std::string, std::string> check_e2e(const Body &b, const std::v
     std::vector<std::pair<std::string, std::string>> ep; std::vector<std::string> ef;
     for (auto &pt : b.parts) { if (pt.file) ef.push_back(pt.content); else ep.push_back({pt.name, pt.content}); }
     if (ctx.params != ep) { std::string s = "body parameters ["; for (auto &kv : ctx.params) s += "(\"" + vc::esc(kv.first) + "\",\"" + vc::esc(kv.second, 80) + "\")"; s += "], text parts ["; for (auto &kv : ep) s += "(\"" + vc::esc(kv.first) + "\",\"" + vc::esc(kv.second, 80) + "\")"; return {"e2e_params_differ_from_text_parts", s + "]"}; }
+    { auto ri = check_indicators(b, ctx.mflags, true); if (!ri.first.empty()) return {"e2e_" + ri.first, ri.second}; }
     if (ctx.files != ef) return {"e2e_file_data_differs", std::to_string(ctx.files.size()) + " files delivered through FILE_DATA, " + std::to_string(ef.size()) + " encoded (or bytes differ)"};
     return {"", ""};
 }
